@@ -212,7 +212,21 @@ def c11(ctx):
     open(sp, "w").write("\n".join(scheds) + "\n")
     n = 3000 if ctx.tier == "quick" else 20000
     op = os.path.join(ctx.work, "conc.ndjson")
-    summ = ctx.vh_json(["conc", ctx.seed, n, op, sp])
+    def run_conc(out):
+        """the harness process itself dies when the Go runtime detects concurrent map access: that is interference, not infrastructure"""
+        p = ctx.run_vh(["conc", ctx.seed, n, out, sp], check=False)
+        if p.returncode != 0:
+            if "concurrent map" in p.stderr:
+                return None, p.stderr
+            raise Infra("vh conc failed (%d):\n%s" % (p.returncode, p.stderr[-3000:]))
+        return json.loads([x for x in p.stdout.splitlines() if x.strip()][-1]), ""
+    summ, crash = run_conc(op)
+    if summ is None:
+        summ2, crash2 = run_conc(op + ".again")
+        first = [l for l in crash.splitlines() if "fatal error" in l][:1]
+        ctx.add_violation("C11: concurrent Run calls on one parsed script / store crash the process: %s%s" % (first, "" if summ2 is None else " (did not recur on a second run: schedule-dependent)"),
+                          dict(kind="race", property="C11", seed=ctx.seed, n=n, report=crash[:3000]))
+        return ctx.finish("model_checking", "see rule of the full run; this run stopped at a runtime-detected concurrent map access")
     r = ctx.tlc_trace("ConcTrace", "ConcTrace.cfg", op, label="purity / determinism / gated interleavings of real runs")
     ctx.cov["evaluations"] += summ["runs"]
     ctx.cov["distinct_nontrivial"] += summ["nontrivial"]
@@ -233,7 +247,10 @@ def c11(ctx):
             seen.add(v["what"])
             # confirm: regenerate the same corpus in a fresh process and judge again
             op2 = os.path.join(ctx.work, "conc2.ndjson")
-            ctx.vh_json(["conc", ctx.seed, n, op2, sp])
+            s2, crash2 = run_conc(op2)
+            if s2 is None:
+                ctx.add_violation("C11: concurrent Run calls crash the process (concurrent map access) | %s" % v["what"], dict(kind="race", property="C11", seed=ctx.seed, n=n, report=crash2[:3000]))
+                break
             r2 = ctx.tlc_trace("ConcTrace", "ConcTrace.cfg", op2, label="confirmation")
             if any(w["what"] == v["what"] for w in r2["viols"]):
                 x = by_id[v["id"]]
